@@ -235,10 +235,12 @@ def _vector(keys, n, kind='wavelength'):
             arg = list(lams)
         else:
             arg = vec
+        snap = cm.Snapshot(compound=f, vector=vec, **({'sequence': arg} if kind == 'list' else {}))
         if kind == 'energy':
             r = nsf.neutron_scattering(f, density=rho, energy=arg)
         else:
             r = nsf.neutron_scattering(f, density=rho, wavelength=arg)
+        snap.check(E, 'vector_call')
         out = flat(r)
         for name, o in zip(NAMES, out):
             ok = isinstance(o, np.ndarray) and o.shape == (n,)
